@@ -68,9 +68,9 @@ PROPS = {
     },
     'C13': {
         'level': 'proof',
-        'units': ['executor', 'span_batch'],
+        'units': ['executor', 'span_batch', 'decoder'],
         'kani': [],
-        'trusted_base': [T_FELT, T_TOOLS, 'A-decoder: Decoder method contracts (one row per call carrying the named opcode; block-stack push/pop) assumed in unit executor', 'hub rules (control_sem.rs, span_sem.rs) define the documented stream/semantics'],
+        'trusted_base': [T_FELT, T_TOOLS, 'A-decoder: the executor unit assumes Decoder contracts over abstract views ops()/blocks(); unit decoder proves the corresponding facts on the real Decoder/DecoderTrace/BlockStack (row opcodes, block stack) for start_join/split/loop/call/syscall/dyn, end_control_block, repeat and the row writers; start_span/respan/execute_user_op/end_span rows: append_user_op / append_span_end proved, the Decoder-level wrappers not yet', 'hub rules (control_sem.rs, span_sem.rs) define the documented stream/semantics'],
         'not_decided': ['decoder trace column contents (append_* row writers) beyond the assumed one-row-per-call contract', 'final decoder row carries the program hash (Decoder::program_hash)', 'call/syscall/dyn blocks: contract assumed in unit executor'],
         'sample_obligations': ['C13/executor/Process::execute_op_batch#ensures.0 : decoder.ops == old + batch_stream(batch) (NOOP only after a group-ending immediate op and once per missing group up to the next power of two)',
                                'C13/executor/Process::execute_span_block#ensures.0 : trace == [SPAN] ++ batches joined by RESPAN ++ [END]; block stack restored'],
